@@ -56,7 +56,8 @@ def filter_family(count):
         b = atoms[(i // 12) % len(atoms)]
         c = ('cmp', '==', ['s'], ('str', 'v%d' % ((i // 192) % 4)))
         shape = (i // 768) % 3
-        ast = [('or', [a, b]), ('and', [b, ('or', [a, c])]), ('or', [('and', [a, b]), c])][shape]
+        # every component matters in every shape, so the 12 x 16 x 4 x 3 = 2304 filters are pairwise distinct texts
+        ast = [('or', [a, ('and', [b, c])]), ('and', [('or', [a, b]), c]), ('or', [('and', [a, c]), b])][shape]
         text = R.render(ast) + ' ' * (i // 2304)       # trailing blanks make further distinct cache keys
         out.append((ast, text))
         i += 1
@@ -108,6 +109,8 @@ def run_shard(spec, ctx):
     g, rows, hrows = make_grid()
     fam = filter_family(1600)
     cap = gf.FILTER_CACHE_LRU_SIZE
+    if len(set(t for _, t in fam)) != len(fam):
+        ctx.inconc('the filter family is not pairwise distinct')
 
     def check_one(idx, label, case, fn=None):
         ast, text = fam[idx]
@@ -156,6 +159,17 @@ def run_shard(spec, ctx):
             i = r.randrange(1500) if r.random() < 0.7 else r.randrange(60)
             ctx.case('hist', 'reuse', j, i)
             check_one(i, 'random-reuse', {'phase': 'reuse', 'j': j, 'i': i})
+        # phase 4b: a few hot filters are re-used every 100 compilations while 2 600 other filters are compiled
+        # (a still-cached filter must keep working after any number of later compilations)
+        hot = list(range(1500, 1510))
+        for i in hot:
+            check_one(i, 'hot-compile', {'phase': 'hot', 'i': i})
+        for j in range(2600):
+            ctx.case('hist', 'hot-churn', j)
+            check_one(j % 1400, 'hot-churn', {'phase': 'hot-churn', 'j': j})
+            if j % 100 == 99:
+                for i in hot:
+                    check_one(i, 'hot-filter-after-many-compilations', {'phase': 'hot-reuse', 'j': j, 'i': i})
         # phase 5: function objects obtained before their eviction still answer right
         for i, fn in kept:
             ctx.case('hist', 'kept-function', i)
@@ -169,7 +183,7 @@ def run_shard(spec, ctx):
         if len(leaked) > cap + 50:
             ctx.violation({'part': 'history', 'kind': 'filter', 'symptom': 'generated-functions-leak', 'features': []},
                           '%d generated functions alive with a cache of %d' % (len(leaked), cap), {'phase': 'leak'})
-        ctx.sample({'history_phases': ['fill %d' % cap, 'overflow', 'cyclic sweep of %d x3' % (cap + 1), '1500 distinct', '3000 random re-uses',
+        ctx.sample({'history_phases': ['fill %d' % cap, 'overflow', 'cyclic sweep of %d x3' % (cap + 1), '1500 distinct', '3000 random re-uses', '10 hot filters across 2600 compilations',
                                        '40 kept function objects'], 'example_filter': fam[5][1]})
         return
 
